@@ -354,7 +354,7 @@ func (f *LocalFile) comments() []string {
 	// File comments are separated by double newlines from file content (detached from actual statements).
 	// However, if the file does not contain any statements (only comments, such as atlas:import) then the
 	// collected comments should treat as file comments.
-	if !strings.HasPrefix(strings.TrimLeft(content, " \t"), "\n") && content != "" {
+	if !strings.HasPrefix(strings.TrimLeft(content, " \t\r"), "\n") && content != "" {
 		return nil
 	}
 	return comments
